@@ -46,6 +46,8 @@ def report(ctx, cases, prop, tag, finding_of=None):
             continue
         sigs[key] = i
         fids = finding_of(c, r) if finding_of else []
+        if i in semlib.judge.known:
+            fids = list(fids) + ["avg-running-rounding"]
         vlib.report_violation(ctx, dict(kind="sem", sql=r.get("sql"), db=c["db"], query=c["q"], result=r, detail=[what]), signature=key, finding_ids=fids)
     nontriv = set()
     for c in cases:
